@@ -543,6 +543,33 @@ Proof.
   - left. split; reflexivity.
 Qed.
 
+(* ---- round 4: per-corner texture coordinates and CRLF at file level ---- *)
+
+(* meshops.Unweld as MeshReader.Read applies it for a texcoord list: in the unwelded mesh, corner k (position k of the
+   index buffer the faces gave) holds, for EVERY attribute, exactly the row of the vertex that corner referenced - in
+   whatever order the faces list the vertices, and also when the number of corners happens to equal the number of
+   vertex records (a reader that skips the unweld then attaches the texture coordinates to the wrong vertices) *)
+Theorem corner_carries_referenced_vertex : forall (l : list attr) idx ua,
+  unweld_attrs l idx = Ok ua ->
+  forall j d n data, nth_error l j = Some (d, n, data) ->
+    exists g, nth_error ua j = Some (d, n, g) /\ List.length g = List.length idx /\
+              forall k i, nth_error idx k = Some i -> nth_error g k = nth_error data (Z.to_nat i) /\ nth_error g k <> None.
+Proof. exact corner_carries_vertex_proof. Qed.
+Print Assumptions corner_carries_referenced_vertex.
+
+(* "CRLF header line endings", at file level: the header text with CRLF line ends and the same text with LF line ends
+   are the same file to the reader, whatever the body *)
+Theorem crlf_file_loads_alike : forall text b,
+  read_mesh {| pf_header := header_lines (crlf text); pf_body := b |} = read_mesh {| pf_header := header_lines text; pf_body := b |}.
+Proof. exact crlf_file_loads_alike_proof. Qed.
+Print Assumptions crlf_file_loads_alike.
+
+(* non-vacuity of [corner_carries_referenced_vertex]: six vertices, two triangles listed as (3,4,5),(0,1,2) *)
+Example corner_example :
+  exists ua, unweld_attrs [(1%nat, "id"%string, [[10]; [11]; [12]; [13]; [14]; [15]])] [3; 4; 5; 0; 1; 2]%Z = Ok ua /\
+             ua = [(1%nat, "id"%string, [[13]; [14]; [15]; [10]; [11]; [12]])].
+Proof. eexists. split; vm_compute; reflexivity. Qed.
+
 (* ---- round 4: what the property excludes, as witnesses ---- *)
 
 (* the known finding ply:ascii-uchar-scalar-raw is a genuine exclusion: the ascii file "x y z float, quality uchar" with
